@@ -225,7 +225,7 @@ impl Group for C07 {
         // otherwise sometimes the channel is set up with a permanent channel id different from its initial one (as
         // LDK-style integrations do): it is ONE channel reachable under both ids, and the requests alternate
         let two_ids = !durable && rng.chance(1, 3);
-        ops.push(if two_ids { format!("{} 1", setup.line()) } else { setup.line() });
+        ops.push(if two_ids { format!("{} {}", setup.line(), 1 + rng.below(2)) } else { setup.line() });
         // ---- reach a state by real updates ----
         let base_w: u128 = if ctype == 3 { 1124 } else { 724 };
         let f0 = fee_for_rate(1000 + rng.below(2000) as u128, base_w, false) as u64;
